@@ -195,6 +195,18 @@ def run(chk, rng, replay=None):
             d["options"]["maxfev"] = max(40, int(d["options"].get("maxfev", 100)))
             d["options"].pop("maxiter", None)
             descs.append(d)
+        # bounds only, NON-CONVEX objectives in a box of a few units: the truncated conjugate-gradient step of the
+        # bound-constrained tangential solver reaches the trust-region boundary and its second phase rotates the step
+        # with the bounds limiting the angle - that phase does not clip, the bound on the angle is what keeps the step
+        # in the box (seeded change C01-7: wrong sign in the bound for the upper bounds)
+        for _ in range(40 if chk.tier == "quick" else 600):
+            n = int(rng.integers(2, 5))
+            descs.append({"x0": [float(np.round(v, 3)) for v in rng.uniform(-1.5, 0.5, n)],
+                          "fun": {"kind": "rosen" if rng.random() < 0.5 else "cosprod", "c": [float(np.round(v, 3)) for v in rng.uniform(-1, 1, n)],
+                                  "w": [float(np.round(v, 3)) for v in rng.uniform(1, 3, n)]},
+                          "bounds": {"lb": [float(np.round(v, 3)) for v in rng.uniform(-2.5, -1, n)],
+                                     "ub": [float(np.round(v, 3)) for v in rng.uniform(0.5, 1.5, n)], "form": "Bounds"},
+                          "options": {"maxfev": 200}})
     procs = min(14, max(1, (os.cpu_count() or 2) - 2))
     if len(descs) >= 8:
         with mp.get_context("fork").Pool(procs) as pool:
